@@ -7,5 +7,5 @@ CONSTANTS
   Tofs = {51, 71, 72, 91, 93, 151, 153}
   TofN = 6
   TofR = 2
-INVARIANTS InvGeom InvG2 InvRefuse InvCommute InvSubset InvConserve InvNest InvTofK InvMapDef
+INVARIANTS InvGeom InvG2 InvRefuse InvCommute InvSubset InvConserve InvNest InvTofK InvMapDef InvInverse InvExtend InvDownsample
 CHECK_DEADLOCK FALSE
